@@ -10,6 +10,7 @@
      idx       number of indices
      escaped   strings written with \u00XX escapes (raw longer than decoded)
      extra     an unknown extra field is present
+     mb        strings are made of multi-byte characters (the caps count BYTES; a cap may fall inside a character)
 
    ParseVerdict  is `TransferProofJson::from_json_str` as the guard sequence the code
                  runs: raw cap first, then the bounded visitors in field order.
@@ -21,7 +22,7 @@ CONSTANTS RawCap, RootCap, NodesCap, NodeLenCap, TotalCap, IdxCap,
 
 Docs == [rawOver : BOOLEAN, shape : {"ok", "truncated", "wrongtype", "missing"},
          root : GRoot, nodes : GNodes, nodeLen : GNodeLen, idx : GIdx,
-         escaped : BOOLEAN, extra : BOOLEAN]
+         escaped : BOOLEAN, extra : BOOLEAN, mb : BOOLEAN]
 
 Total(d) == d.nodes * d.nodeLen
 
